@@ -7,8 +7,8 @@ from harness.props import c05, c07
 
 ID = 'C12'
 MODULE = 'Gpv.Props.C12'
-MODULES = ['Gpv.Props.C12', 'Gpv.Props.C12P2']
-THEOREMS = core.theorems('C12', 'C12P2')
+MODULES = ['Gpv.Props.C12', 'Gpv.Props.C12P2', 'Gpv.Props.C12Alias']
+THEOREMS = core.theorems('C12', 'C12P2', 'C12Alias')
 RULE = ('accumulator kind (Minimum, Maximum, Mean, Variance, RunningMean, RunningVariance, Covariance, CDF/Quantile estimators) x shape '
         '(0-d to 3-d) x sequence; after EVERY observation (and after merges) each component of the array accumulator is compared with a '
         'separate scalar accumulator of the real code fed that component only (oracle, rtol 1e-12; exact for ranks, min, max), and the '
@@ -43,7 +43,37 @@ def readout(kind, acc):
     return dict(value=acc.value, n=acc.n)
 
 
-def grid_case(ctx, kind, shape, vals, L, merge_at):
+def own_view(acc, kind, shape, pick):
+    """an observation made from the accumulator's own read-out — the current mean put in place of a dropped frame, mirrored: a VIEW
+    (first axis reversed, or transposed) of an array the accumulator handed out, which may well be its live state. Returns (view, values)"""
+    cands = [acc.mean.value, acc.rms] if kind in ('var', 'rvar') else [acc.value]
+    cands = [c for c in cands if isinstance(c, np.ndarray) and c.shape == tuple(shape)]
+    if not cands:
+        return None, None
+    ro = cands[pick % len(cands)]
+    mirror = (lambda a: a.T) if (len(shape) == 2 and shape[0] == shape[1] and pick % 2) else ((lambda a: a[::-1]) if shape[0] >= 2 else (lambda a: a[..., ::-1]))
+    view = mirror(ro)
+    of_mean = kind in ('var', 'rvar') and ro is cands[0] and np.shares_memory(ro, acc.mean.value)
+    # component i of the view is component sigma[i] of the array it is a view of
+    sigma = [int(t) for t in mirror(np.arange(int(np.prod(shape))).reshape(shape)).ravel()]
+    OWN_VIEW_INFO[0] = dict(of_mean=bool(of_mean), sigma=sigma)
+    return view, np.array(view, dtype=float, copy=True)
+
+
+OWN_VIEW_INFO = [None]
+ALIAS_TIES = []          # (driver line, what the real accumulator holds afterwards, case): compared with Model/Alias.lean at the end of the check
+
+
+def alias_tie_before(arr, values):
+    """driver line for the aliasing model: the array Variance's state (exact rationals of its floats) and the observation — a view of the
+    running mean where it is one, else the values as a fresh array"""
+    info = OWN_VIEW_INFO[0]
+    fq = lambda a: ' '.join(acclib.fmt_frac(Fraction(float(t))) for t in np.asarray(a, dtype=float).ravel())     # noqa
+    obs = ('view ' + ' '.join(map(str, info['sigma']))) if info['of_mean'] else ('fresh ' + fq(values))
+    return 'alias.step fixed %d | %s | %s | %s' % (arr.n, fq(arr.mean.value), fq(arr.rms), obs)
+
+
+def grid_case(ctx, kind, shape, vals, L, merge_at, own_at=None):
     """array accumulator vs grid of scalar accumulators, both on the real code"""
     A = acclib.accmod()
     cls = getattr(A, acclib.KINDS[kind])
@@ -52,10 +82,22 @@ def grid_case(ctx, kind, shape, vals, L, merge_at):
     arr, arr2 = mk(), mk()
     grid = [mk() for _ in range(ncomp)]
     grid2 = [mk() for _ in range(ncomp)]
-    case = dict(kind=kind, shape=list(shape), values=vals, L=L, merge_at=merge_at)
+    case = dict(kind=kind, shape=list(shape), values=vals, L=L, merge_at=merge_at, own_at=own_at)
     for i, v in enumerate(vals):
         obj = acclib.to_obj(v)
         second = merge_at is not None and i >= merge_at
+        if own_at and own_at[0] == i and not second and ncomp >= 2 and arr.n >= 1:
+            view, values = own_view(arr, kind, shape, own_at[1])
+            if view is not None:
+                ctx.count('own_readout_as_observation')
+                tie = alias_tie_before(arr, values) if kind == 'var' and arr.n >= 1 else None
+                arr.accumulate(view)
+                if tie:
+                    ALIAS_TIES.append((tie, (arr.n, [float(t) for t in np.ravel(arr.mean.value)], [float(t) for t in np.ravel(arr.rms)]), case))
+                for c in range(ncomp):
+                    grid[c].accumulate(float(values.ravel()[c]))
+                if not compare(ctx, kind, arr, grid, ncomp, case, 'after a mirrored view of its own read-out was fed before observation %d' % i):
+                    return False
         (arr2 if second else arr).accumulate(obj)
         flat = np.asarray(obj, dtype=float).ravel()
         for c in range(ncomp):
@@ -112,19 +154,41 @@ def compare(ctx, kind, arr, grid, ncomp, case, where):
     return True
 
 
-def cov_case(ctx, vals, d):
+def cov_case(ctx, vals, d, frame=None, own_at=None):
+    """frame = [shape, order]: the d components arrive as a frame of that shape (component i = element i in the usual row-major numbering, as
+    numpy.cov of the flattened frames has it), stored in C or Fortran order or handed over as a transposed view — the layout in memory is not
+    part of an array's value"""
     A = acclib.accmod()
     C = A.Covariance()
     V = [A.Variance() for _ in range(d)]
     pairs = {(i, j): A.Covariance() for i in range(d) for j in range(d) if i < j}
-    case = dict(kind='cov', d=d, values=vals)
+    case = dict(kind='cov', d=d, values=vals, frame=frame, own_at=own_at)
     for n, v in enumerate(vals, 1):
         x = np.asarray(acclib.to_obj(v), dtype=float)
-        C += x
+        if frame:
+            shp, order = tuple(frame[0]), frame[1]
+            fr = x.reshape(shp)
+            fr = np.asfortranarray(fr) if order == 'F' else (np.ascontiguousarray(fr.T).T if order == 'T' else np.ascontiguousarray(fr))
+            C += fr
+        else:
+            C += x
         for i in range(d):
             V[i] += float(x[i])
         for (i, j), acc in pairs.items():
             acc += np.array([x[i], x[j]])
+        if own_at == n and not frame:
+            # the current mean, mirrored, put in as an observation: a view of what the accumulator handed out
+            view = C.mean.value[::-1]
+            x = np.array(view, dtype=float, copy=True)
+            ctx.count('own_readout_as_observation')
+            fq = lambda a: ' '.join(acclib.fmt_frac(Fraction(float(t))) for t in np.asarray(a, dtype=float).ravel())     # noqa
+            tie = 'alias.covstep fixed %d | %s | %s | view %s' % (C.n, fq(C.mean.value), fq(C.rms), ' '.join(str(d - 1 - i) for i in range(d)))
+            C += view
+            ALIAS_TIES.append((tie, (C.n, [float(t) for t in np.ravel(C.mean.value)], [float(t) for t in np.ravel(C.rms)]), case))
+            for i in range(d):
+                V[i] += float(x[i])
+            for (i, j), acc in pairs.items():
+                acc += np.array([x[i], x[j]])
         if n < 2:
             continue
         M = np.asarray(C.value)
@@ -193,9 +257,12 @@ def check(ctx):
         fam = rng.choice(['int', 'dyadic', 'tied', 'mixed', 'big'])
         n = rng.choice([1, 2, 3, 5, 9, 16])
         if kind == 'cov':
-            d = rng.choice([2, 3, 4])
+            d = rng.choice([2, 3, 4, 4, 6])
             vals = c05.gen_values(rng, n, (d,), 'dyadic' if fam == 'mixed' else fam)
-            cov_case(ctx, vals, d)
+            frame = [{4: [2, 2], 6: [2, 3]}[d], rng.choice(['C', 'F', 'T'])] if d in (4, 6) and rng.random() < 0.7 else None
+            if frame:
+                ctx.count('cov_frames:' + frame[1])
+            cov_case(ctx, vals, d, frame, rng.randint(2, n) if (not frame and n >= 3 and rng.random() < 0.4) else None)
             shape = (d,)
             L, merge_at = None, None
         else:
@@ -213,7 +280,8 @@ def check(ctx):
             merge_at = rng.randint(0, n) if rng.random() < 0.4 else None
             if fam == 'percomponent-offset' and n >= 4:
                 merge_at = rng.randint(2, n - 2)
-            grid_case(ctx, kind, shape, vals, L, merge_at)
+            own_at = [rng.randint(1, n - 1), rng.randint(0, 3)] if (shape and int(np.prod(shape)) >= 2 and n >= 2 and rng.random() < 0.35) else None
+            grid_case(ctx, kind, shape, vals, L, merge_at, own_at)
         ncomp = int(np.prod(shape)) if shape else 1
         flat = [acclib.flat(v)[1] for v in vals]
         distinct_components = ncomp >= 2 and any(len({c[k] for k in range(ncomp)}) > 1 for c in flat)
@@ -246,6 +314,7 @@ def check(ctx):
                 ctx.disagree('array-model-correspondence', meta, iv if isinstance(iv, str) else {k: iv.get(k) for k in bad},
                              mv if isinstance(mv, str) else {k: str(mv.get(k)) for k in bad}, 'at read %d keys %s' % (i, bad))
                 break
+    compare_alias_ties(ctx)
     # P²: array estimator vs grid of scalar estimators, components in different branches; lock-step per component
     l2, p2, vl, vp = [], [], [], []
     for _ in range(ctx.scale(60, 600)):
@@ -253,6 +322,32 @@ def check(ctx):
         c07.run_case(ctx, case, rng, l2, p2)
     c07.compare_lockstep(ctx, l2, p2)
     compare_vector_lockstep(ctx, vl, vp)
+
+
+def compare_alias_ties(ctx):
+    """observations that are views of the accumulator's own running mean: the real Variance / Covariance against `stepFixed` of
+    Model/Alias.lean (which C12Alias.fixed_eq_pure proves equal to the component-wise Welford push of the view's present values)"""
+    ties = list(ALIAS_TIES)
+    del ALIAS_TIES[:]
+    if not ties:
+        return
+    mout = core.run_driver([t[0] for t in ties])
+    for (line, (n, mean, var), case), ml in zip(ties, mout):
+        ctx.count('alias_model_ties')
+        try:
+            mn, mm, mv = [part.split() for part in ml.split('|')]
+            model = (int(mn[0]), [Fraction(t) for t in mm], [Fraction(t) for t in mv])
+        except Exception:  # noqa
+            ctx.disagree('alias-model-correspondence', case, dict(n=n, mean=mean, var=var), ml[:300], line[:300])
+            continue
+        scale_m = max([abs(x) for x in model[1]] + [Fraction(1)])
+        scale_v = max([abs(x) for x in model[2]] + [Fraction(1)])
+        ok = model[0] == n and len(model[1]) == len(mean) and len(model[2]) == len(var) and \
+            all(abs(Fraction(a) - b) <= Fraction(1, 10 ** 10) * scale_m for a, b in zip(mean, model[1])) and \
+            all(abs(Fraction(a) - b) <= Fraction(1, 10 ** 10) * scale_v for a, b in zip(var, model[2]))
+        if not ok:
+            ctx.disagree('alias-model-correspondence', case, dict(n=n, mean=mean, var=var),
+                         dict(n=model[0], mean=[float(x) for x in model[1]], var=[float(x) for x in model[2]]), line[:300])
 
 
 def compare_vector_lockstep(ctx, vlines, vposts):
@@ -286,11 +381,12 @@ def compare_vector_lockstep(ctx, vlines, vposts):
 def replay(ctx, data):
     case = data['case']
     if case.get('kind') == 'cov':
-        cov_case(ctx, case['values'], case['d'])
+        cov_case(ctx, case['values'], case['d'], case.get('frame'), case.get('own_at'))
+        compare_alias_ties(ctx)
     elif 'spec' in case:
         check(ctx)       # regenerated under the recorded seed and tier (core.main sets both from the replay file)
     else:
-        grid_case(ctx, case['kind'], tuple(case['shape']), case['values'], case.get('L'), case.get('merge_at'))
+        grid_case(ctx, case['kind'], tuple(case['shape']), case['values'], case.get('L'), case.get('merge_at'), case.get('own_at'))
     ctx.case(('replay', case.get('kind')), True, sample=case)
 
 
